@@ -3,7 +3,7 @@
     after the repairs `fix: indexserver cleanup: tombstone unassigned repos in compound shards even when
     they also have simple shards` and `fix: indexserver cleanup: keep compound shards that still serve
     other repositories when shard merging is disabled`).  Proofs: Proofs/CleanupProofs.v. *)
-From ZV Require Import Lib.Base Model.Cleanup Proofs.CleanupProofs Proofs.CleanupUnassigned Proofs.CleanupTrash Proofs.CleanupRevive Proofs.CleanupRestore Proofs.CleanupFailure.
+From ZV Require Import Lib.Base Model.Cleanup Proofs.CleanupProofs Proofs.CleanupUnassigned Proofs.CleanupTrash Proofs.CleanupRevive Proofs.CleanupRestore Proofs.CleanupFailure Proofs.CleanupFailure2.
 Open Scope Z_scope.
 
 (** assigned_kept (FULL).  For every well-formed index directory, every assigned list, every time and both
@@ -62,6 +62,26 @@ Theorem C32_unassigned_not_searchable_any_rename_failure : forall d repos now sm
   forall g e, In g (d_index (cleanup_f d repos now sm mvfail)) -> In e (alive_entries g) -> e_id e <> id.
 Proof. intros d repos now sm mvfail id H1 H2 H3. exact (unassigned_not_alive_after_any_failure d repos now sm mvfail id H1 H2 H3). Qed.
 Print Assumptions C32_unassigned_not_searchable_any_rename_failure.
+
+(** the trash rule ("deleted only if old, conflicting or assigned") also holds under any rename failures, and an
+    assigned repository is restored from the trash whenever no rename of ITS trashed shards fails (other renames may);
+    if one of them fails moveAll deletes all of its trashed shards (ex_big_rename_failures) *)
+Theorem C32_trash_kept_any_rename_failure : forall d repos now sm mvfail t e id,
+  wf d -> wf_trash d -> In t (d_trash d) -> In e (alive_entries t) -> e_id e = id ->
+  trash_drop d now id = false -> ~ In id repos ->
+  exists t', In t' (d_trash (cleanup_f d repos now sm mvfail)) /\ f_base t' = f_base t /\ f_repos t' = f_repos t.
+Proof. intros. eapply trash_kept_any_failure; eauto. Qed.
+Print Assumptions C32_trash_kept_any_rename_failure.
+
+Theorem C32_assigned_restored_from_trash_other_renames_may_fail : forall d repos now sm mvfail t e id,
+  wf d -> wf_trash d -> In t (d_trash d) -> alive_entries t = [e] -> f_compound t = false -> e_id e = id ->
+  In id repos -> NoDup repos -> In id (trash_keys d now) ->
+  (forall s, In s (group (get_shards (d_trash d)) id) -> mvfail true (s_base s) = false) ->
+  (exists f', In f' (d_index (cleanup_f d repos now sm mvfail)) /\ f_base f' = f_base t /\ f_repos f' = f_repos t /\
+              f_compound f' = false) /\
+  (forall t', In t' (d_trash (cleanup_f d repos now sm mvfail)) -> f_base t' <> f_base t).
+Proof. intros. eapply assigned_restored_from_trash_f; eauto. Qed.
+Print Assumptions C32_assigned_restored_from_trash_other_renames_may_fail.
 
 (** unassigned_not_searchable_after: for every well-formed directory, every assigned set and both settings
     of shardMerging, no repository outside the assigned set is alive in any index shard after cleanup
